@@ -575,6 +575,9 @@ func (database *ChainDatabase) GetConfirms(hash common.Hash) ([]types.SignData, 
 }
 
 func (database *ChainDatabase) LoadLatestBlock() (*types.Block, error) {
+	database.RW.RLock()
+	defer database.RW.RUnlock()
+
 	if database.LastConfirm.Block == nil {
 		return nil, ErrBlockNotExist
 	} else {
@@ -788,6 +791,9 @@ func (database *ChainDatabase) GetAssetID(id common.Hash) (common.Address, error
 }
 
 func (database *ChainDatabase) IterateUnConfirms(fn func(*types.Block)) {
+	database.RW.RLock()
+	defer database.RW.RUnlock()
+
 	database.LastConfirm.Walk(func(block *CBlock) {
 		fn(block.Block)
 	}, nil)
